@@ -18,20 +18,14 @@ Definition hrr_share (g : Z) : KeyShareEntry_r := {| KeyShareEntry_group := g; K
 (* second ClientHello whose key_share extension has an empty body *)
 Definition hrr_w_empty_body : ClientHello_r := hrr_mk [hrr_ks None].
 
-Lemma hrr_site_len : HrrChChecks hrr_w_empty_body 23 = Crash "TypeError" "len:ext.client_shares#1".
+(* before /repo 79180d8 this value refuted crash-freedom (Crash "TypeError" "len:ext.client_shares#1");
+   now it is answered with decode_error *)
+Lemma hrr_former_witness : HrrChChecks hrr_w_empty_body 23 = Alert 50.
 Proof. vm_compute. reflexivity. Qed.
 
-Lemma hrr_crash_sites_l : forall ch g, crash_in hrr_ch_known_sites (HrrChChecks ch g).
-Proof. exact HrrChChecks_crash_sites. Qed.
-
-Lemma hrr_refuted_l : exists ch g, is_crash (HrrChChecks ch g) = true.
-Proof. exists hrr_w_empty_body, 23. rewrite hrr_site_len. reflexivity. Qed.
-
-Lemma hrr_sites_reachable_l : forall s, In s hrr_ch_known_sites -> exists ch g k, HrrChChecks ch g = Crash k s.
-Proof.
-  intros s H. cbn [hrr_ch_known_sites In] in H. destruct H as [<-|[]].
-  exists hrr_w_empty_body, 23, "TypeError"%string. exact hrr_site_len.
-Qed.
+(* FULL crash-freedom *)
+Lemma hrr_crash_free_l : forall ch g, ncrash (HrrChChecks ch g).
+Proof. intros. apply crash_in_nil_ncrash. exact (HrrChChecks_crash_sites ch g). Qed.
 
 (* the other shapes: absent => missing_extension (109); present with an EMPTY VECTOR, two shares or
    the wrong group => illegal_parameter (47); exactly the requested group => passes *)
